@@ -343,9 +343,12 @@ def path_count_range(b, weight, start=0, targets=None):
             return memo[x]
         lo, hi = None, None
         for y in succ[x]:
-            if (x, y) in back or y in stack:
+            if y in exits and targets is not None:
+                r = (weight.get(y, 0), weight.get(y, 0))   # reaching a target ends the path, also through a back edge
+            elif (x, y) in back or y in stack:
                 continue
-            r = go(y, stack | {x})
+            else:
+                r = go(y, stack | {x})
             if r is None:
                 continue
             lo = r[0] if lo is None else min(lo, r[0])
